@@ -233,3 +233,34 @@ Proof.
   assert (Er : teq t t = true) by (apply teq_eq; reflexivity). rewrite Er. simpl negb at 1. cbv iota.
   unfold past_check. rewrite tie_loop_guard. reflexivity.
 Qed.
+
+(* ---- the property read off the generated validation itself: which replies scheduler.step accepts ---- *)
+Theorem generated_reply_accepted_iff r c u tb sched :
+  step_reply r c u tb = StepOk sched <->
+  (exists v, r = RInt v /\ c < v /\ sched = (if v <? u then Some v else None)) \/ (r = RNone /\ tb = false /\ sched = None).
+Proof.
+  unfold step_reply. split.
+  - destruct r as [|v|].
+    + destruct tb; [discriminate|]. intros H. injection H as <-. right. repeat split.
+    + destruct (v <=? c) eqn:E; [discriminate|]. intros H. injection H as <-. left. exists v. repeat split. apply Z.leb_gt. exact E.
+    + discriminate.
+  - intros [(v & -> & Hc & ->)|(-> & -> & ->)]; [|reflexivity].
+    assert (E : (v <=? c) = false) by (apply Z.leb_gt; exact Hc). rewrite E. reflexivity.
+Qed.
+
+Theorem generated_output_time_accepted_iff ot c lst ott :
+  output_time_rule ot c lst = Some ott <->
+  lst <= ot /\ ott = (if ot =? thd c then c else ot :: repeat 0 (length c - 1)).
+Proof.
+  unfold output_time_rule. cbv zeta. rewrite Z.gtb_ltb. split.
+  - destruct (ot <? lst) eqn:E; [discriminate|]. intros H. injection H as <-. split; [apply Z.ltb_ge; exact E|reflexivity].
+  - intros [Hl ->]. assert (E : (ot <? lst) = false) by (apply Z.ltb_ge; exact Hl). rewrite E. reflexivity.
+Qed.
+
+(* the loop guard read off the generated test itself: it fires iff some sub-step counter has reached max_loop_iterations *)
+Theorem generated_loop_guard_iff m t : loop_guard m t = true <-> exists x, In x (tl t) /\ m <= x.
+Proof.
+  unfold loop_guard. rewrite existsb_exists. split; intros (x & Hx & H); exists x; (split; [exact Hx|]).
+  - apply Z.geb_le. exact H.
+  - apply Z.geb_le. exact H.
+Qed.
